@@ -86,6 +86,95 @@ def run(ctx):
                 ctx.ob("length-error-is-input", "%s@%d" % (short(fn.path), k), ok,
                        "a length check failing yields Error::Input" if ok else "a failing length check returns %s instead of Error::Input" % (variant,), where(fn, s), cfg)
         ctx.floor("length-error-is-input", k, 8, cfg)
+        limit_exact(ctx, cfg)
+
+
+def limit_exact(ctx, cfg, rule="limit-exact"):
+    """the 65535-byte limit is applied exactly: reads reject len(message) > 65535 and nothing shorter on account of the
+    limit; transport writes reject payload + 16 > 65535 and nothing shorter (interval evaluation of the guards)"""
+    from . import nonce as NZ
+    from ..expr import strip_bb
+    F = ctx.facts[cfg]
+    cases = [
+        ("transportstate::TransportState::read_message", 2, 65535, "message"),
+        ("stateless_transportstate::StatelessTransportState::read_message", 3, 65535, "message"),
+        ("handshakestate::HandshakeState::_read_message", 2, 65535, "message"),
+        ("transportstate::TransportState::write_message", 2, 65535 - 16, "payload"),
+        ("stateless_transportstate::StatelessTransportState::write_message", 3, 65535 - 16, "payload"),
+    ]
+    n = 0
+    for name, argi, maxok, what in cases:
+        fn = F.one_fn(name)
+        G = ctx.guards(cfg, fn)
+        var = ("len", ("arg", argi))
+        # exits whose selecting branch compares this length with a constant
+        rej = []
+        for (bi, variant, s) in ret_err_sites(fn, G.R):
+            if variant != ("Input",):
+                continue
+            # the branch edges that select this exit (directly or through an empty goto block)
+            edges = [(p, bi) for p in fn.preds(bi)]
+            for p in fn.preds(bi):
+                if not fn.blocks[p]["stmts"] and fn.blocks[p]["term"]["k"] == "goto":
+                    edges += [(pp, p) for pp in fn.preds(p)]
+            for e in edges:
+                for f in G.edge_facts.get(e, ()):
+                    lf = lin_len_fact(f, var)
+                    if lf is not None and lf[3][0] == "const" and lf[2] == var:
+                        st, unm = NZ.var_set([lf], var)
+                        rej += st
+        # accepted: at the cipher call / first effect: complement information from the facts there
+        acc = None
+        for bi, t in fn.calls():
+            d = t["callee"].get("def") or ""
+            if d.endswith("CipherState::encrypt") or d.endswith("CipherState::decrypt") or d.endswith("SymmetricState::decrypt_and_mix_hash"):
+                facts = [lin_len_fact(f, var) for f in G.before_term(bi)]
+                facts = [f for f in facts if f is not None and f[3][0] == "const"]
+                st, unm = NZ.var_set(facts, var)
+                acc = st if acc is None else acc + st
+        n += 1
+        big = (1 << 64) - 1
+        rej_ok = sorted(set(rej)) == [(maxok + 1, big)]
+        acc_ok = acc is not None and any(l == 0 and h == maxok for (l, h) in set(acc))
+        ctx.ob(rule, short(fn.path), rej_ok and acc_ok,
+               "%s longer than %d bytes is rejected with Input, and exactly those" % (what, maxok) if rej_ok and acc_ok
+               else "the length limit on %s is not exact: rejected lengths %s, accepted lengths %s; the specification allows 0..=%d" % (what, NZ.fmt_set(rej), NZ.fmt_set(acc or []), maxok),
+               where(fn), cfg)
+    ctx.floor(rule, n, 5, cfg)
+
+
+def lin_len_fact(f, var):
+    """normalise comparison facts `len + c <op> K` to `len <op> K - c` for interval evaluation"""
+    if f[0] != "cmp":
+        return None
+    op, a, b, truth = f[1], f[2], f[3], f[4]
+
+    def split(e):
+        if e == var:
+            return 0
+        if e[0] == "bin" and e[1] == "Add":
+            if e[2] == var and e[3][0] == "const":
+                return e[3][1]
+            if e[3] == var and e[2][0] == "const":
+                return e[2][1]
+        return None
+    ca = split(a)
+    if ca is not None and b[0] == "const":
+        return ("cmp", op, var, ("const", b[1] - ca), truth)
+    cb = split(b)
+    if cb is not None and a[0] == "const":
+        return ("cmp", op, ("const", a[1] - cb), var, truth)
+    if mentions_len(f) and (contains(a, var) or contains(b, var)):
+        return ("cmp", op, a, b, truth)
+    return None
+
+
+def contains(e, x):
+    if e == x:
+        return True
+    if isinstance(e, tuple):
+        return any(contains(y, x) for y in e if isinstance(y, tuple))
+    return False
 
 
 def mentions_len(f):
